@@ -265,6 +265,13 @@ theorem WF_stepOp {cfg s} (o : Op) (h : WF cfg s) : WF cfg (stepOp cfg o s).1 :=
     split
     · exact ⟨h.cache, h.sel, h.diagKeys, h.compatKeys⟩
     · exact h
+  | leaveWs i => exact ⟨h.cache, h.sel, h.diagKeys, h.compatKeys⟩
+  | ignoreWs i => exact ⟨h.cache, h.sel, h.diagKeys, h.compatKeys⟩
+  | newAlt i =>
+    simp only [stepOp]
+    split
+    · exact ⟨h.cache, h.sel, h.diagKeys, h.compatKeys⟩
+    · exact h
 
 /-! ### exact description of `restore (save s) t` -/
 
@@ -553,11 +560,15 @@ theorem stepOp_builtins (cfg : Cfg) (o : Op) (s : State) :
     left
     simp only [stepOp]
     split <;> exact ⟨rfl, rfl⟩
+  | newAlt i =>
+    left
+    simp only [stepOp]
+    split <;> exact ⟨rfl, rfl⟩
   | _ => exact Or.inl ⟨rfl, rfl⟩
 
-/-- the `copyDefaultWhiteChars` flags (and "unassigned Forward" marks) of a list of built-ins
-    (never changed by any command) -/
-def flagsOf (l : List Expr) : List (Bool × Bool) := l.map (fun e => (e.copyDef, e.fwdEmpty))
+/-- the `copyDefaultWhiteChars` / `skipWhitespace` flags (and "unassigned Forward" marks) of a list of
+    built-ins (never changed by any command) -/
+def flagsOf (l : List Expr) : List (Bool × Bool × Bool) := l.map (fun e => (e.copyDef, e.fwdEmpty, e.skip))
 
 theorem flagsOf_assignWs : ∀ (l : List Expr) (ws : List (List Char)), flagsOf (assignWs l ws) = flagsOf l
   | [], _ => by simp [assignWs]
@@ -616,14 +627,21 @@ theorem enableLRTail_users (cap : Option Int) (s : State) : (enableLRTail cap s)
   | none => rfl
   | some n => simp only; split <;> rfl
 
-/-- every operation other than the user's own `set_whitespace_chars` / `fwd <<= e` leaves the existing user
-    expressions alone (it may append new ones) -/
+/-- every operation other than the user's own `set_whitespace_chars` / `fwd <<= e` / `leave_whitespace` /
+    `ignore_whitespace` leaves the existing user expressions alone (it may append new ones) -/
 theorem stepOp_users (cfg : Cfg) (o : Op) (s : State) (ho : ∀ i c cd, o ≠ .exprSetWs i c cd)
-    (ho' : ∀ i j, o ≠ .assignFwd i j) :
+    (ho' : ∀ i j, o ≠ .assignFwd i j) (hl : ∀ i, o ≠ .leaveWs i) (hg : ∀ i, o ≠ .ignoreWs i) :
     ∃ e1, (stepOp cfg o s).1.users = s.users ++ e1 := by
   cases o with
   | exprSetWs i ch cd => exact absurd rfl (ho i ch cd)
   | assignFwd i j => exact absurd rfl (ho' i j)
+  | leaveWs i => exact absurd rfl (hl i)
+  | ignoreWs i => exact absurd rfl (hg i)
+  | newAlt i =>
+    simp only [stepOp]
+    split
+    · exact ⟨[_], rfl⟩
+    · exact ⟨[], by simp⟩
   | newExpr => exact ⟨[newExpr s], rfl⟩
   | newFwd => exact ⟨[newFwd s], rfl⟩
   | copyExpr i =>
@@ -653,5 +671,66 @@ theorem stepOp_users (cfg : Cfg) (o : Op) (s : State) (ho : ∀ i c cd, o ≠ .e
       · rfl
       · exact enableLRTail_users cap s
   | _ => exact ⟨[], by simp [stepOp, setDefaultWs, setKwChars, inlineLiterals, disableMemo, resetCache]⟩
+
+/-! ### canonical sets and the whitespace part of `preParse` -/
+
+theorem mem_insertSorted (x c : Char) : ∀ l : List Char, x ∈ insertSorted c l ↔ x = c ∨ x ∈ l
+  | [] => by simp [insertSorted]
+  | d :: ds => by
+    simp only [insertSorted]
+    split
+    · simp
+    · split
+      · rename_i _ heq
+        have hcd : c = d := Char.toNat_inj.mp heq
+        subst hcd
+        simp
+      · simp only [List.mem_cons, mem_insertSorted x c ds]
+        constructor
+        · rintro (h | h | h)
+          · exact Or.inr (Or.inl h)
+          · exact Or.inl h
+          · exact Or.inr (Or.inr h)
+        · rintro (h | h | h)
+          · exact Or.inr (Or.inl h)
+          · exact Or.inl h
+          · exact Or.inr (Or.inr h)
+
+/-- the canonical form of `set(chars)` has exactly the characters of `chars` -/
+theorem mem_canonSet (x : Char) : ∀ cs : List Char, x ∈ canonSet cs ↔ x ∈ cs
+  | [] => by simp [canonSet]
+  | c :: cs => by
+    have ih := mem_canonSet x cs
+    simp only [canonSet, List.foldr_cons] at ih ⊢
+    rw [mem_insertSorted, ih]
+    simp
+
+theorem mem_pySet (x : Char) (c : String) : x ∈ pySet c ↔ x ∈ c.toList := mem_canonSet x c.toList
+
+theorem dropWhile_spec (p : Char → Bool) : ∀ inp : List Char,
+    ∃ pre, inp = pre ++ inp.dropWhile p ∧ (∀ ch ∈ pre, p ch = true) ∧
+      (∀ ch rest, inp.dropWhile p = ch :: rest → p ch = false)
+  | [] => ⟨[], by simp⟩
+  | a :: as => by
+    obtain ⟨pre, h1, h2, h3⟩ := dropWhile_spec p as
+    cases hp : p a with
+    | true =>
+      refine ⟨a :: pre, ?_, ?_, ?_⟩
+      · simp only [List.dropWhile_cons, hp, if_true, List.cons_append]
+        rw [← h1]
+      · intro ch hch
+        simp only [List.mem_cons] at hch
+        rcases hch with rfl | hch
+        · exact hp
+        · exact h2 ch hch
+      · intro ch rest hr
+        simp only [List.dropWhile_cons, hp, if_true] at hr
+        exact h3 ch rest hr
+    | false =>
+      refine ⟨[], ?_, by simp, ?_⟩
+      · simp [hp]
+      · intro ch rest hr
+        simp only [List.dropWhile_cons, hp, Bool.false_eq_true, if_false, List.cons.injEq] at hr
+        rw [← hr.1]; exact hp
 
 end PP.Settings
